@@ -78,7 +78,7 @@ def assign_desc(draw, labs, array_rhs):
             v = draw(st.lists(st.sampled_from(labs), min_size=0, max_size=4))
         return {"k": "list", "v": v, "as": draw(st.sampled_from(["list", "array"]))}
     if k == "mask":
-        return {"k": "mask", "v": draw(st.lists(st.booleans(), min_size=n, max_size=n))}
+        return {"k": "mask", "v": draw(st.lists(st.booleans(), min_size=n, max_size=n)), "as": draw(st.sampled_from(["array", "array", "list"]))}
     # label slice with bounds on the labels (unambiguous), any step
     if not n:
         return {"k": "full"}
